@@ -177,7 +177,7 @@ pub fn run(ctx: &Ctx) -> Outcome {
             for dir in [Dir::Enc, Dir::Dec] {
                 for k in KINDS {
                     rep.case(|| {
-                        let mut a = if k == Kind::InPlace { data[..l].to_vec() } else { dirty(l) };
+                        let mut a = if k.in_place() { data[..l].to_vec() } else { dirty(l) };
                         let mut b = a.clone();
                         let ra = rec::cts(cfg, d, Ctor::Inner, false, dir, k, key, &iv, &data[..l], &mut a).expect("harness: ctor");
                         let rb = rec::cts(cfg, d, Ctor::Inner, true, dir, k, key, &iv, &data[..l], &mut b).expect("harness: ctor");
